@@ -144,8 +144,12 @@ CHECKS = {
               "LegalNameNeverRefused with SequencesExt!IsPrefix on every transition; PathsDistinct and "
               "VisiblePrefixFree as invariants); real histories with colliding names of 1-3 parts ('0' vs 0, "
               "shared prefixes, anonymous windows absorbing several names) are validated by TLC: every "
-              "acceptance and refusal must be the one the specification allows and nothing may change on refusal."),
-        note=MM + "; the exception class of a refusal is not constrained.",
+              "acceptance and refusal must be the one the specification allows and nothing may change on refusal. "
+              "For every forest of maps and every universe of names: TLAPS proves (128 obligations) that the abstract "
+              "name space specs/NamesAbs.tla stays prefix-free and that absorbed name spaces never change; "
+              "MemoryMap_MC is asserted to refine its step relation on every transition and every recorded call of "
+              "the real MemoryMap is validated against it."),
+        note=MM + "; the exception class of a refusal is not constrained; the TLAPS theorem is about the abstract module, tied to the code by the refinement assertion (bounded) and trace validation.",
         technique="TLA+ spec of the API + TLC model checking; histories replayed on real objects; TLC trace validation",
         design="5 (C18)"),
     "C17": dict(
